@@ -285,6 +285,8 @@ def run_twin(devs, budgets, sizes=None, via="proto", menu="full"):
             box["harness"] = "could not reconnect"
             return
         s.block(lambda: conn.connected and getattr(conn, "_thread_running", True), s.clock + 5, "wait connected again")
+        # the session of the new connection exists (what was queued before that belongs to no connection and is failed by the library)
+        s.block(lambda: proto.connection_state.current.name != "NOT_CONNECTED", s.clock + 5, "wait session")
         base = len(peer.rx)
         k.send_menu = True
         k.select_menu = True
